@@ -68,7 +68,8 @@ namespace nmtools::view
             if constexpr (is_none_v<step_t>)
                 return static_cast<element_type>(start) + index;
             else
-                return static_cast<element_type>(start) + (index * step);
+                // the index is unsigned: multiply in the element type so that a negative integer step stays negative
+                return static_cast<element_type>(start) + (static_cast<element_type>(index) * step);
         } // operator()
     }; // arange_t
     
